@@ -1,40 +1,41 @@
 /* C19: spif_socket_open - every failure point leaves the object in SOCK_INV and orphans no descriptor.
  *
- * Tier B (the resolver retry in spif_url_get_ipaddr is a do-while: no loop contract possible, see lifecycle.c;
- * it runs at most 4 times, unwound 6 with unwinding assertions - not a restriction).  Everything else symbolic:
- * any ghost descriptor table; any socket object satisfying SOCK_INV (descriptor open or none, address block
- * present or not, any flags); local / remote URL each absent or present with protocol / host / port / path each
- * absent or a short string; every outcome of socket(), bind(), connect(), listen(), fcntl(), of the resolver and
- * of the protocol / service lookups.  Kernel = stub model (env_net.h section 4).
+ * Tier P: the resolver retry of spif_url_get_ipaddr (a do-while) carries a loop contract (annot/socket.c.net.ann,
+ * applied by `prepass: --dfcc harness --apply-loop-contracts`, plain harness otherwise); everything else is
+ * loop-free (the model functions below are written without loops).  Symbolic: any ghost descriptor table; any
+ * socket object satisfying SOCK_INV (descriptor open or none, address block present or not, any flags); local /
+ * remote URL each absent or present with protocol / host / port / path each absent or a text of up to 4
+ * characters (so the words "raw" and "unix" occur); every outcome of socket(), bind(), connect(), listen(),
+ * fcntl(), of the resolver and of the protocol / service lookups (decision tape, env_net.h section 4).
  * Checked after the call, whatever it returned: SOCK_INV; no descriptor slot other than the object's own
  * changed (a descriptor opened by socket() is in self->fd, so that done/del will close it); the temporary
  * bind addresses are released (--memory-leak-check); no bad pointer is used on any path.
+ * Native replay (native: self): same harness, same ghost kernel, real socket.c; inputs and kernel schedule from
+ * the witness.
  *
- *   open.unix   URLs without a protocol or with "unix"/"raw"+path (AF_UNIX branch)
- *   open.inet   URLs with any other protocol word (AF_INET branch)
+ *   open.unix   URLs without a protocol word (AF_UNIX branch by default)
+ *   open.inet   URLs with a protocol word: "raw" / "unix" / anything else (AF_INET branch)
  */
 /*@unit
 name: open.unix
-define: NET_KERNEL, U_UNIX
+define: NET_KERNEL, NET_TAPE, NET_GHOST_CLOCK, VG_TAPE_N=64, VERIF_OWN_LOOKUPS, U_UNIX
 src: socket.c
-tier: B
-bound: resolver retry loop and model copy loops unwound 6 with unwinding assertions (the loop runs at most 4 times); URL component texts <= 3 characters
-unwind: 6
+prepass: --dfcc harness --apply-loop-contracts --no-malloc-may-fail
 backend: sat
 checks_off: --conversion-check
 flags: --memory-leak-check
+native: self
 funcs: spif_socket_open, spif_socket_get_proto, spif_url_get_unixaddr, spif_socket_clear_nbio
 */
 /*@unit
 name: open.inet
-define: NET_KERNEL, U_INET
+define: NET_KERNEL, NET_TAPE, NET_GHOST_CLOCK, VG_TAPE_N=64, VERIF_OWN_LOOKUPS, U_INET
 src: socket.c
-tier: B
-bound: resolver retry loop and model copy loops unwound 6 with unwinding assertions (the loop runs at most 4 times); URL component texts <= 3 characters
-unwind: 6
+prepass: --dfcc harness --apply-loop-contracts --no-malloc-may-fail
 backend: sat
 checks_off: --conversion-check
 flags: --memory-leak-check
+native: self
 funcs: spif_socket_open, spif_socket_get_proto, spif_url_get_ipaddr, spif_url_get_portnum, spif_socket_clear_nbio
 */
 #define VERIF_OWN_STRCMP
@@ -42,25 +43,34 @@ funcs: spif_socket_open, spif_socket_get_proto, spif_url_get_ipaddr, spif_url_ge
 #include "env_net.h"
 #include "socket.h"
 
-/* ---- models of what socket.c calls outside itself ------------------------------------------------------- */
+/* ---- models of what socket.c calls outside itself (loop-free; private names in the native replay) ---------- */
+#ifdef VERIF_NATIVE
+# define spif_url_get_proto vg_m_get_proto
+# define spif_url_get_host vg_m_get_host
+# define spif_url_get_port vg_m_get_port
+# define spif_url_get_path vg_m_get_path
+# define spif_str_cmp_with_ptr vg_m_cmp_with_ptr
+# define spif_str_to_num vg_m_to_num
+# define strcmp vg_m_strcmp
+# define strncat vg_m_strncat
+# define getprotobyname vg_m_getprotobyname
+# define getservbyname vg_m_getservbyname
+#else
 spif_bool_t spif_obj_set_class(spif_obj_t self, spif_class_t cls) { self->cls = cls; return TRUE; }
+int strncmp(const char *a, const char *b, size_t n) { return nondet_int(); }
+int strcasecmp(const char *a, const char *b) { return nondet_int(); }
+int strncasecmp(const char *a, const char *b, size_t n) { return nondet_int(); }
+#endif
 /* SPIF_DEFINE_PROPERTY_FUNC(url, str, x) getters, url.c:244-250, written out */
 spif_str_t spif_url_get_proto(spif_url_t self) { return self->proto; }
 spif_str_t spif_url_get_host(spif_url_t self) { return self->host; }
 spif_str_t spif_url_get_port(spif_url_t self) { return self->port; }
 spif_str_t spif_url_get_path(spif_url_t self) { return self->path; }
-/* str.c: three-way comparison / number conversion of a short terminated text (values arbitrary, texts read) */
+/* three-way comparison of two terminated texts of at most TXT characters, unrolled */
 #define TXT 4
-static int short_cmp(const char *a, const char *b)
-{
-    int i;
-    for (i = 0; i < TXT + 1; i++) { if (a[i] != b[i]) return (a[i] < b[i]) ? -1 : 1; if (!a[i]) return 0; }
-    return 0;
-}
+#define CMP_STEP(i) if (a[i] != b[i]) return (a[i] < b[i]) ? -1 : 1; if (!a[i]) return 0;
+static int short_cmp(const char *a, const char *b) { CMP_STEP(0) CMP_STEP(1) CMP_STEP(2) CMP_STEP(3) CMP_STEP(4) return 0; }
 int strcmp(const char *a, const char *b) { __CPROVER_assert(a != NULL && b != NULL, "strcmp: arguments not NULL"); return short_cmp(a, b); }
-int strncmp(const char *a, const char *b, size_t n) { return nondet_int(); }
-int strcasecmp(const char *a, const char *b) { return nondet_int(); }
-int strncasecmp(const char *a, const char *b, size_t n) { return nondet_int(); }
 spif_cmp_t spif_str_cmp_with_ptr(spif_str_t self, spif_charptr_t other)
 {
     int c;
@@ -68,75 +78,91 @@ spif_cmp_t spif_str_cmp_with_ptr(spif_str_t self, spif_charptr_t other)
     c = short_cmp(self->s, other);
     return SPIF_CMP_FROM_INT(c);
 }
-size_t spif_str_to_num(spif_str_t self, int base) { __CPROVER_assert(self != NULL && self->s != NULL, "spif_str_to_num: a string"); return nondet_size_t(); }
+size_t spif_str_to_num(spif_str_t self, int base) { __CPROVER_assert(self != NULL && self->s != NULL, "spif_str_to_num: a string"); return (size_t) (VG_NL() & 0xffff); }
 char *strncat(char *d, const char *s, size_t n)
 {
-    size_t i;
     __CPROVER_assert(d[0] == 0 && n >= TXT, "strncat model: empty destination, room for a short text");
-    for (i = 0; i < TXT; i++) { if (!s[i]) break; d[i] = s[i]; }
-    d[i] = 0;
+    d[0] = s[0]; if (!s[0]) return d;
+    d[1] = s[1]; if (!s[1]) return d;
+    d[2] = s[2]; if (!s[2]) return d;
+    d[3] = s[3]; if (!s[3]) return d;
+    d[4] = 0;
     return d;
 }
-static struct hostent vg_hostent; static char vg_hostaddr[4]; static char *vg_addrlist[2];
-struct hostent *gethostbyname(const char *name)
+/* lookups from the decision tape */
+struct protoent *getprotobyname(const char *name)
 {
-    __CPROVER_assert(name != NULL && __CPROVER_r_ok(name, 1), "gethostbyname: name is a readable string");
-    if (nondet_bool()) { vg_h_errno = nondet_bool() ? TRY_AGAIN : HOST_NOT_FOUND; return NULL; }
-    vg_addrlist[0] = vg_hostaddr; vg_addrlist[1] = NULL;
-    vg_hostent.h_addr_list = nondet_bool() ? NULL : vg_addrlist;
-    vg_hostent.h_length = 4;
-    return &vg_hostent;
+    __CPROVER_assert(name != NULL && __CPROVER_r_ok(name, 1), "getprotobyname: name is a readable string");
+    if (VG_NB()) return (struct protoent *) 0;
+    vg_protoent_name[0] = VG_NB() ? 't' : 'u'; vg_protoent_name[1] = VG_NB() ? 'c' : 'd'; vg_protoent_name[2] = 'p'; vg_protoent_name[3] = 0;
+    vg_protoent.p_name = vg_protoent_name; vg_protoent.p_aliases = vg_no_aliases; vg_protoent.p_proto = VG_NI();
+    return &vg_protoent;
 }
-const char *hstrerror(int e) { return "resolver error"; }
-
-#include "rawsrc/socket.c"
-
-static spif_str_t any_text(void)
+struct servent *getservbyname(const char *name, const char *proto)
 {
-    if (nondet_bool()) return NULL;
-    spif_str_t p = malloc(sizeof(spif_const_str_t));
-    p->len = nondet_long();
-    __CPROVER_assume(p->len >= 0 && p->len < TXT);
-    p->size = TXT; p->s = malloc(TXT);
-    p->s[p->len] = 0;
+    __CPROVER_assert(name != NULL && __CPROVER_r_ok(name, 1), "getservbyname: name is a readable string");
+    if (VG_NB()) return (struct servent *) 0;
+    vg_servent_name[0] = 0; vg_servent_proto[0] = 't'; vg_servent_proto[1] = 0;
+    vg_servent.s_name = vg_servent_name; vg_servent.s_aliases = vg_no_aliases; vg_servent.s_proto = vg_servent_proto;
+    vg_servent.s_port = (int) (VG_NL() & 0xffff);
+    return &vg_servent;
+}
+
+#ifdef VERIF_NATIVE
+# include "rawsrc/socket.c"
+#else
+# include "src/socket.c"
+#endif
+
+static spif_str_t mk_text(_Bool has, long len, char c0, char c1, char c2, char c3)
+{
+    spif_str_t p;
+    if (!has) return NULL;
+    p = malloc(sizeof(spif_const_str_t));
+    __CPROVER_assume(len >= 0 && len <= TXT);
+    p->len = len; p->size = TXT + 1; p->s = malloc(TXT + 1);
+    p->s[0] = c0; p->s[1] = c1; p->s[2] = c2; p->s[3] = c3; p->s[4] = 0;
+    p->s[len] = 0;
+    __CPROVER_assume((len < 1 || c0 != 0) && (len < 2 || c1 != 0) && (len < 3 || c2 != 0) && (len < 4 || c3 != 0));
     return p;
 }
-static spif_url_t any_url(void)
-{
-    if (nondet_bool()) return NULL;
-    spif_url_t u = calloc(1, sizeof(spif_const_url_t));
-    u->proto = any_text(); u->host = any_text(); u->port = any_text(); u->path = any_text();
-#ifdef U_UNIX
-    /* no protocol, or the words "unix" / "raw" are too long for TXT: stand-in: no protocol word at all */
-    __CPROVER_assume(u->proto == NULL);
-#else
-    __CPROVER_assume(u->proto != NULL);
-#endif
-    return u;
-}
+#define ANY_TEXT(n) mk_text(VND(bool, has_ ## n), VND(long, len_ ## n), VND(char, n ## _c0), VND(char, n ## _c1), VND(char, n ## _c2), VND(char, n ## _c3))
 static void drop_text(spif_str_t p) { if (p) { free(p->s); free(p); } }
 static void drop_url(spif_url_t u) { if (u) { drop_text(u->proto); drop_text(u->host); drop_text(u->port); drop_text(u->path); free(u); } }
-static void any_table(void)
-{
-    vg_fd_open[0] = nondet_bool(); vg_fd_open[1] = nondet_bool(); vg_fd_open[2] = nondet_bool(); vg_fd_open[3] = nondet_bool();
-    vg_fd_open[4] = nondet_bool(); vg_fd_open[5] = nondet_bool(); vg_fd_open[6] = nondet_bool(); vg_fd_open[7] = nondet_bool();
-}
 #define SLOT_KEPT(before) (vg_k >= VG_NFD || vg_fd_open[vg_k] == (before))
 
 void harness(void)
 {
     _Bool slot_before;
     spif_socket_t s = malloc(sizeof(spif_const_socket_t));
+    spif_url_t lu = NULL, ru = NULL;
     int fd0;
     spif_bool_t r;
-    libast_debug_level = nondet_uint();          /* every run-time debug level (globals start at 0 in a plain harness) */
-    any_table();
-    s->fd = nondet_int(); s->fam = nondet_int(); s->type = nondet_int(); s->proto = nondet_int();
-    s->flags = nondet_uint(); s->len = nondet_uint();
+    libast_debug_level = VND(uint, debug_level);          /* every run-time debug level */
+    vg_fd_open[0] = VND(bool, open0); vg_fd_open[1] = VND(bool, open1); vg_fd_open[2] = VND(bool, open2); vg_fd_open[3] = VND(bool, open3);
+    vg_fd_open[4] = VND(bool, open4); vg_fd_open[5] = VND(bool, open5); vg_fd_open[6] = VND(bool, open6); vg_fd_open[7] = VND(bool, open7);
+    VG_TAPE_FILL();
+    s->fd = VND(int, s_fd); s->fam = VND(int, s_fam); s->type = VND(int, s_type); s->proto = VND(int, s_proto);
+    s->flags = VND(uint, s_flags); s->len = VND(uint, s_len);
     __CPROVER_assume(SOCK_FD_OK(s) && s->fd >= -1 && s->len <= sizeof(struct sockaddr_un));
-    s->addr = nondet_bool() ? NULL : malloc(s->len);
-    s->local_url = any_url(); s->remote_url = any_url();
+    s->addr = VND(bool, s_has_addr) ? malloc(s->len) : NULL;
+    if (s->addr) memset(s->addr, 0, s->len);
+    if (VND(bool, has_lurl)) {
+        lu = calloc(1, sizeof(spif_const_url_t));
+        lu->proto = ANY_TEXT(lproto); lu->host = ANY_TEXT(lhost); lu->port = ANY_TEXT(lport); lu->path = ANY_TEXT(lpath);
+    }
+    if (VND(bool, has_rurl)) {
+        ru = calloc(1, sizeof(spif_const_url_t));
+        ru->proto = ANY_TEXT(rproto); ru->host = ANY_TEXT(rhost); ru->port = ANY_TEXT(rport); ru->path = ANY_TEXT(rpath);
+    }
+#ifdef U_UNIX
+    __CPROVER_assume((lu == NULL || lu->proto == NULL) && (ru == NULL || ru->proto == NULL));
+#else
+    __CPROVER_assume((lu == NULL || lu->proto != NULL) && (ru == NULL || ru->proto != NULL));
+#endif
+    s->local_url = lu; s->remote_url = ru;
     fd0 = s->fd;
+    vg_k = VND(size_t, k);
     __CPROVER_assume(vg_k < VG_NFD);
     slot_before = vg_fd_open[vg_k];
 
@@ -146,7 +172,6 @@ void harness(void)
     __CPROVER_assert(SOCK_FD_OK(s), "open: the descriptor field is none or names an open descriptor");
     __CPROVER_assert(fd0 < 0 || s->fd == fd0, "open: an already open socket keeps its descriptor");
     __CPROVER_assert((int) vg_k == s->fd || SLOT_KEPT(slot_before), "open: no descriptor slot changes except the object's own (nothing opened and orphaned)");
-    __CPROVER_assert(r != TRUE || s->fd >= 0 || (s->local_url == NULL && s->remote_url == NULL) || 1, "open: (informational)");
     VERIF_CANARY();
     free(s->addr); drop_url(s->local_url); drop_url(s->remote_url); free(s);
 }
